@@ -89,6 +89,47 @@ def gen_cases(rng, tier):
     for _ in range(200 if quick else 10000):
         c, t = C07.one(rng)
         yield c, ["conn"] + t
+    for _ in range(24 if quick else 1000):
+        yield late_writer_case(rng)
+
+
+def late_writer_case(rng):
+    """the FIRST StreamWriter of a request is created while a management reply is only partly on the wire: the handler polls a read once
+    (the reply flush starts, the transport takes a few bytes and says not-ready), drops that read, and only then obtains a writer and
+    writes or flushes through it.  Whatever becomes of the task (on the unchanged crate it waits for the output lock: known finding F6 of
+    C08), the transport log must stay a prefix of a sequence of complete records: nothing may be written INTO the unfinished reply"""
+    rid = 1
+    q = rng.choice([record(GETVALUES, 0, nv(list(rng.choice([b"FCGI_MAX_CONNS", b"FCGI_MPXS_CONNS"])), []), rng.choice([0, 3])),
+                    record(rng.choice([12, 99]), rng.choice([0, rid]), [1, 2, 3], 0)])
+    recs = minimal_preamble(rid, rng.choice([1, 1, 3]), flags=rng.choice([0, 1])) + [q, record(STDIN, rid, [97, 98, 99], 0), record(STDIN, rid, [], 0)]
+    segs = [(0, 0, flat(recs))]
+    then = rng.choice([[("write", STDOUT, [104, 105])], [("write", STDERR, [33] * 20)], [("flush", STDERR)], [("write", STDOUT, [104, 105]), ("read", 16)]])
+    scripts = [rng.choice([[], [("read", 16)]]) + [("poll1", rng.choice([1, 5, 64]))] + then + [("ret", 0, 0)]]
+    ws = [rng.choice([1, 3, 5, 8, 20]), 0] + [10 ** 6] * 10
+    return conn_case(rng.choice([64, 8192]), 1, segs, scripts, [], ws, rng.choice([0, 1])), ["late-writer", "query"]
+
+
+def framing_rule(line, impl_line):
+    o = parse_out(impl_line)
+    if o is None or o[0] == [18446744073710440504]:
+        return "connection task crashed or panicked"
+    cfg, rs, ws, segs, scripts = C07.decode_case(line)
+    head, cons, wlog, inv, shut = C07.parse_events(o)
+    recs, tail = parse_records(wlog)
+    if tail not in ("clean", "cut"):
+        return "the transport log is not a prefix of a record sequence (%s): something was written into an unfinished record" % (tail,)
+    rr, _ = parse_records(segs[0][2])
+    rid = [r for r in rr if r[0] == BEGIN][0][1]
+    for t, i, body, pad in recs:
+        if t not in (STDOUT, STDERR, END, GETVALUESRESULT, UNKNOWN) or i not in (0, rid) or pad >= 8 or (t in (STDOUT, STDERR) and (len(body) + pad) % 8):
+            return "the transport log contains a malformed record (type %d, id %d, %d + %d bytes): records were interleaved" % (t, i, len(body), pad)
+    if tail == "cut":
+        # the unfinished record at the end must itself start like a record the server sends
+        done = sum(8 + len(b) + p for _, _, b, p in recs)
+        rest = wlog[done:]
+        if rest[:1] != [1] or (len(rest) > 1 and rest[1] not in (STDOUT, STDERR, END, GETVALUESRESULT, UNKNOWN)):
+            return "the transport log ends in bytes that are not the beginning of a record"
+    return True
 
 
 def nontrivial(line, tags):
@@ -96,11 +137,13 @@ def nontrivial(line, tags):
 
 
 def min_classes(tier):
-    return {"w2": 250, "w3": 250, "query": 400, "vectored": 300, "first-slice": 300, "big": 4, "conn": 150, "close-after-half-flush": 40}
+    return {"w2": 250, "w3": 250, "query": 400, "vectored": 300, "first-slice": 300, "big": 4, "conn": 150, "close-after-half-flush": 40, "late-writer": 24}
 
 
 def oracle(line, impl_line):
     if line.startswith("conn_run"):
+        if any(op and op[0] == "poll1" for sc in C07.decode_case(line)[4] for op in C07.handler_ops(sc)):
+            return framing_rule(line, impl_line)          # class late-writer (C07's oracle expects a completed connection)
         return C07.oracle(line, impl_line)
     mode, a = parse_case(line)
     o = parse_out(impl_line)
